@@ -95,6 +95,8 @@ class SyncKill:
     def kill_case(self, pt):
         k, mode = pt
         chk = self.chk
+        if len(chk.violations) > 8:
+            return
         a = self.scn.build()
         rep = dict(self.desc, kill='%d:%s' % (k, mode), call=' '.join(map(str, self.calls[k - 1][1:3])).replace(self.root_ref, ''))
         try:
@@ -416,6 +418,8 @@ class FixKill:
     def kill_case(self, pt):
         k, mode = pt
         chk = self.chk
+        if len(chk.violations) > 8:
+            return
         a = self.build()
         rep = {'fix_kill': '%d:%s' % (k, mode), 'np': self.np, 'call': ' '.join(map(str, self.calls[k - 1][1:3])).replace(self.root_ref, '')}
         try:
